@@ -17,7 +17,7 @@ func readHdlr(b *box) (ht hdlrType, err error) {
 		return hdlrUnknown, err
 	}
 	if len(buf) < 8 {
-		return hdlrUnknown, errors.Wrap(ErrBufLength, "readHdlr")
+		return hdlrUnknown, errReadHdlr
 	}
 	ht = hdlrFromBuf(buf[4:8])
 	if logLevelInfo() {
